@@ -68,8 +68,26 @@ def _group(args):
                 r = mp.run_request(body, ct, mcl=mcl, maxmem=mm, maxparts=mpn, has_cl=has_cl, term=term)
                 runs.append({"op": "req", "api": "request", "mcl": -1 if mcl is None else mcl,
                              "maxmem": -1 if mm is None else mm, "maxparts": -1 if mpn is None else mpn,
-                             "has_cl": has_cl, "term": term, "consumed": r["consumed"], "res": r["res"]})
+                             "has_cl": has_cl, "term": term, "consumed": r["consumed"], "res": r["res"],
+                             "exp": {"err": "skip", "consumed": 0, "nparts": 0}})
     return cfg, runs
+
+
+def _model_case(v):
+    """spec -> code: one exported FormLimits case executed on the real Request (buffer size is the parser's
+    default there, so only outcome-level agreement is compared, as drift)."""
+    wire, bnd, c = bytes(v["wire"]), bytes(v["bnd"]), v["c"]
+    un = lambda x: None if x < 0 else x
+    ct = "multipart/form-data; boundary=" + bnd.decode()
+    cfg = {"op": "cfg", "bnd": list(bnd), "wire": list(wire), "ref": mp.ref_of(wire, bnd),
+           "formref": mp.run_form(wire, bnd, len(wire) + 1), "modelhdr": False, "ctype": "multipart"}
+    r = mp.run_request(wire, ct, mcl=un(c["mcl"]), maxmem=un(c["maxmem"]), maxparts=un(c["maxparts"]), has_cl=c["hasCL"], term=c["term"])
+    exp = dict(v["out"])
+    if c["buf"] < len(wire):   # the real Request reads with its own buffer size: outcome may differ only through the decoder's buffer bound
+        exp = {"err": "skip", "consumed": 0, "nparts": 0}
+    run = {"op": "req", "api": "request", "mcl": c["mcl"], "maxmem": c["maxmem"], "maxparts": c["maxparts"],
+           "has_cl": c["hasCL"], "term": c["term"], "consumed": r["consumed"], "res": r["res"], "exp": exp}
+    return cfg, [run]
 
 
 def run(ctx: Ctx):
@@ -84,7 +102,20 @@ def run(ctx: Ctx):
     ]
     for cfg in ("MCL_mem", "MCL_parts") + (() if q else ("MCL_mem2", "MCL_both")):
         ctx.model_check(AREA, "MCQ_base", cfg, timeout=1800)
+    # request level: get_input_stream + LimitedStream abstraction + parser loop + decoder model vs the contract
+    ctx.model_check(AREA, "MCFL", "MCFL_q" if q else "MCFL_t", timeout=3000)
+    from .. import tlc
+    for bad in (("MCFL_bad_term",) if q else ("MCFL_bad_term", "MCFL_bad_field")):
+        r = tlc.run_tlc(AREA, "MCFL", bad, workers=ctx.workers, tmp=ctx.tmp, allow_violation=True, timeout=1800)
+        ctx.notes.setdefault("broken_models_rejected", {})[bad] = r.invariant_violated
+        if not r.invariant_violated:
+            raise tlc.MachineryError(f"deliberately broken request-level model {bad} is not rejected (vacuity)")
     ctx.exhaustive = True
+    exported = [v for v in ctx.export(AREA, "MCFL", "MCFLX_q", count_states=False) if isinstance(v, dict) and "wire" in v]
+    rngx = random.Random(ctx.seed)
+    rngx.shuffle(exported)
+    model_cases = exported[: (1500 if q else 12000)]
+    ctx.notes["request_model_cases_exported"] = len(exported)
     rng = random.Random(ctx.seed)
     bodies = mp.limit_bodies(rng, q)
     for _ in range(10 if q else 200):
@@ -92,6 +123,7 @@ def run(ctx: Ctx):
         bodies.append(("multipart", b, w))
     groups = [(ct, b, w, ctx.seed + i, q) for i, (ct, b, w) in enumerate(bodies)]
     results = pmap(_group, groups, workers=ctx.workers, chunksize=1) if len(groups) >= 200 else [_group(g) for g in groups]
+    results += pmap(_model_case, model_cases, workers=ctx.workers, chunksize=16)
     lines = []
     for t, (cfg, runs) in enumerate(results):
         cfg["t"] = t
@@ -137,7 +169,8 @@ def replay(ctx: Ctx, data):
     else:
         r = mp.run_request(w, ct, mcl=un(case["mcl"]), maxmem=lim[0], maxparts=lim[1], has_cl=case["has_cl"], term=case["term"])
         runs = [{"op": "req", "api": "request", "mcl": case["mcl"], "maxmem": case["maxmem"], "maxparts": case["maxparts"],
-                 "has_cl": case["has_cl"], "term": case["term"], "consumed": r["consumed"], "res": r["res"]}]
+                 "has_cl": case["has_cl"], "term": case["term"], "consumed": r["consumed"], "res": r["res"],
+                 "exp": {"err": "skip", "consumed": 0, "nparts": 0}}]
     lines = [cfg]
     for i, r in enumerate(runs):
         r["t"], r["i"] = 0, i
